@@ -81,12 +81,16 @@ def same_engine_scenarios():
     scns = []
     goals = [(C("foo", V(0)), 1), (C("bar", V(0), V(1)), 2), (C("app", V(0), V(1), lst([A("p"), A("q"), A("r")])), 2)]
     prog["r/2"] = [clause(C("r", V(0), V(1)), conj(call(C("eq", V(0), V(2))), call(C("num", V(1)))))]
-    goals = goals + [(C("r", V(0), V(1)), 2), (C("eq", V(0), A("b")), 1), (C("eq", C("f", V(0)), V(1)), 2)]
+    goals = goals + [(C("r", V(0), V(1)), 2), (C("eq", V(0), A("b")), 1), (C("eq", C("f", V(0)), V(1)), 2),
+                     # facts whose variables sit below the top level of their arguments
+                     (C("holds", C("box", A("apple"))), 0), (C("holds", C("box", V(0))), 1), (C("holds", C("pair", A("k"), C("box", A("pear")))), 0)]
     for (g1, q1), (g2, q2) in itertools.product(goals, repeat=2):
         t1 = [{"op": "query", "e": 1, "r": 1, "goal": g1, "qnv": q1, "t": 1}] + [{"op": "next", "r": 1, "t": 1}] * 3 + [{"op": "close", "r": 1, "how": "close", "t": 1}]
         t2 = [{"op": "query", "e": 1, "r": 2, "goal": g2, "qnv": q2, "t": 2}] + [{"op": "next", "r": 2, "t": 2}] * 3 + [{"op": "close", "r": 2, "how": "drop", "t": 2}]
         t0 = [{"op": "load", "e": 1, "script": "P", "ow": True, "t": 3},
               {"op": "assert", "e": 1, "term": C("eq", V(0), V(0)), "atEnd": True, "r": 0, "t": 3},
+              {"op": "assert", "e": 1, "term": C("holds", C("box", V(0))), "atEnd": True, "r": 0, "t": 3},
+              {"op": "assert", "e": 1, "term": C("holds", C("pair", V(0), C("box", V(1)))), "atEnd": True, "r": 0, "t": 3},
               {"op": "assert", "e": 1, "term": C("num", I(1)), "atEnd": True, "r": 0, "t": 3},
               {"op": "assert", "e": 1, "term": C("num", I(2)), "atEnd": True, "r": 0, "t": 3}]
         scns.append({"engines": 1, "scripts": {"P": prog}, "steps": [[op] for op in t0], "threads": [t1[:4], t2[:4]], "keys": KEYS + [{"n": "eq", "k": 2}]})
@@ -234,7 +238,7 @@ def run(tier, seed):
             a, b = a[:4], b[:4]
         scns.append({"engines": 2, "scripts": sc, "steps": [], "threads": [a, b], "keys": KEYS})
     recs, results = chk.machine_family("two-engines-all-interleavings", scns, features=features,
-                                       opts_list=[{}, {"baton": True}])
+                                       opts_list=[{}, {"baton": True}, {"same_fn": True}])
     # same engine, two suspended queries
     se = same_engine_scenarios()
     chk.machine_family("one-engine-two-queries", se, features=features, opts_list=[{}, {"baton": True}])
